@@ -140,6 +140,7 @@ func GenTree(prop string, r *sim.Rand, tier string) sim.Script {
 	if r.Chance(1, 2) {
 		s.Observe = "fresh"
 	}
+	s.Scribble = r.Chance(1, 3)
 	s.Ver = int64(1 + r.Intn(50))
 	if r.Chance(1, 10) {
 		s.Ver = int64(r.U64() >> 2)
@@ -186,7 +187,7 @@ func GenTree(prop string, r *sim.Rand, tier string) sim.Script {
 	case "C14":
 		c.children = r.Chance(1, 2)
 		c.valProfile = []string{"sep", "bin", "sep", "bin", "plain"}[r.Intn(5)]
-		c.wGet, c.wIter = 0, 0
+		c.wGet, c.wIter = 4, 0
 	case "C17":
 		c.children = false
 		c.wGet, c.wIter, c.wEmpty = 0, 0, 0
